@@ -229,20 +229,22 @@ def runEager : Nat → St → St
     if s.ended || s.ctorErr.isSome then s else runEager n (stepPoll (stepProd s))
 
 /-- Consumer that takes `k` rows and then drops the pager. `eagerProd = true`: the producer runs as far
-as it can before every poll; `false`: it only moves when the consumer cannot. -/
+as it can before every poll and before the drop; `false`: it only moves when the consumer cannot. After
+the drop the producer runs until it stops. -/
 def runDrop (eagerProd : Bool) (k : Nat) : Nat → St → St
   | 0, s => s
   | n + 1, s =>
     if s.ctorErr.isSome || s.ended || !s.errs.isEmpty then s
-    else if s.rx == .alive && s.delivered.length ≥ k then
-      prodToQuiescence (measure s + 1) (stepDrop (if eagerProd then prodToQuiescence (measure s + 1) s else s))
+    else if s.rx != .alive then runDrop eagerProd k n (stepProd s)
     else
-      let s1 := if eagerProd || s.rx != .alive then prodToQuiescence (measure s + 1) s else s
-      let s2 := stepPoll s1
-      let s3 := if s2.delivered.length == s1.delivered.length && s2.taken == s1.taken
-                   && s2.errs.length == s1.errs.length && !s2.ended
-                then stepProd s2 else s2
-      runDrop eagerProd k n s3
+      let s1 := if eagerProd then prodToQuiescence (measure s + 1) s else s
+      if s1.delivered.length ≥ k then prodToQuiescence (measure s1 + 1) (stepDrop s1)
+      else
+        let s2 := stepPoll s1
+        let s3 := if s2.delivered.length == s1.delivered.length && s2.taken == s1.taken
+                     && s2.errs.length == s1.errs.length && !s2.ended
+                  then stepProd s2 else s2
+        runDrop eagerProd k n s3
 
 /-! ### The single-connection pager's attempts (`Connection::execute_iter`)
 
